@@ -306,6 +306,9 @@ func checkRequestTable(p *Prog, r *Report) {
 		return c != nil && i == idx && c.Common().StaticCallee() == skip
 	}
 	atom := func(cond ssa.Value) (string, bool, bool) {
+		if _, isP := cond.(*ssa.Parameter); isP {
+			cond = canon(cond) // a helper's boolean parameter (missing(dryRun)) → the caller's argument
+		}
 		switch x := cond.(type) {
 		case *ssa.Call:
 			if x.Common().StaticCallee() == lo {
